@@ -160,6 +160,24 @@ func OracleC07(r *SeqRun) []explore.Violation {
 			add("unlimited-lost", fmt.Sprintf("hold db%d key%x id%x had unlimited expiry, restored with %d s", hk.db, hk.key[15], hk.id[15], a.ExpriedIn))
 		}
 	}
+	if r.Spec.Restart2 {
+		if ro.Start2Err != "" {
+			add("second-restart-failed", "the third start failed: "+ro.Start2Err)
+		} else if ro.After2 != nil {
+			rel := map[string]bool{}
+			for _, x := range ro.Released {
+				rel[x] = true
+			}
+			for _, k := range ro.After2.Keys {
+				for _, h := range k.Holds {
+					id := fmt.Sprintf("db%d key%x id%x", k.DB, k.Key[15], h.LockId[15])
+					if rel[id] {
+						add("released-after-restart-yet-restored", fmt.Sprintf("hold %s was restored by the first restart, its unlock was accepted by that incarnation, and a second restart restores it again (depth %d)", id, h.Depth))
+					}
+				}
+			}
+		}
+	}
 	for hk, a := range after {
 		if _, ok := before[hk]; !ok {
 			add("released-hold-restored", fmt.Sprintf("restart restored hold db%d key%x id%x (depth %d) which was not outstanding at the stop", hk.db, hk.key[15], hk.id[15], a.Depth))
@@ -242,6 +260,8 @@ func c07Specs(quick bool) []*SeqSpec {
 		}
 		specs = append(specs, &SeqSpec{Name: "restart-" + v.name, Cfg: hapi.Config{FastKeys: 2, Concurrent: 2, FileBuf: v.buf, RewriteSz: v.rw, PreDBs: 2}, Alphabet: c07Alphabet(quick), Depth: d, Restart: true, MaxStates: 300000})
 	}
+	// two restarts: whatever the first restart restores is released in the second incarnation and must stay released
+	specs = append(specs, &SeqSpec{Name: "restart-twice-buf64", Cfg: hapi.Config{FastKeys: 2, Concurrent: 2, FileBuf: 64, RewriteSz: 1 << 20, PreDBs: 2}, Alphabet: c07Alphabet(quick), Depth: d - 1, Restart: true, Restart2: true, MaxStates: 300000})
 	return specs
 }
 
